@@ -68,12 +68,21 @@ func (m *Request) Marshal() (b []byte, err error) {
 
 // Unmarshal a byte slice into a Reply.
 func (m *Reply) Unmarshal(b []byte) error {
+	if len(b) < 6 {
+		return fmt.Errorf("kadmin reply is too short: %d bytes", len(b))
+	}
 	m.MessageLength = int(binary.BigEndian.Uint16(b[0:2]))
+	if m.MessageLength < 6 || m.MessageLength > len(b) {
+		return fmt.Errorf("kadmin reply message length %d does not fit the %d bytes received", m.MessageLength, len(b))
+	}
 	m.Version = int(binary.BigEndian.Uint16(b[2:4]))
 	if m.Version != 1 {
 		return fmt.Errorf("kadmin reply has incorrect protocol version number: %d", m.Version)
 	}
 	m.APREPLength = int(binary.BigEndian.Uint16(b[4:6]))
+	if 6+m.APREPLength > m.MessageLength {
+		return fmt.Errorf("kadmin reply AP_REP length %d exceeds the message length %d", m.APREPLength, m.MessageLength)
+	}
 	if m.APREPLength != 0 {
 		err := m.APREP.Unmarshal(b[6 : 6+m.APREPLength])
 		if err != nil {
@@ -92,6 +101,10 @@ func (m *Reply) Unmarshal(b []byte) error {
 }
 
 func parseResponse(b []byte) (c uint16, s string) {
+	if len(b) < 2 {
+		// No result code in the data: report KRB5_KPASSWD_MALFORMED (RFC 3244)
+		return 1, ""
+	}
 	c = binary.BigEndian.Uint16(b[0:2])
 	buf := bytes.NewBuffer(b[2:])
 	m := make([]byte, len(b)-2)
